@@ -156,12 +156,12 @@ theorem foldl_addEdge_prefix (es : List (Int × Int)) (m : Mol) :
     simp only [List.foldl_cons]
     exact ⟨⟨x1 ++ x2, by rw [h3, h1]; simp⟩, by rw [h4, h2]⟩
 
-theorem addInter_nodes (m : Mol) (ty : String) (atoms : List Int) (pr : String) (v : Int) :
+theorem addInter_nodes (m : Mol) (ty : String) (atoms : List Int) (pr : String) (v : Option Int) :
     (m.addInter ty atoms pr v).1.nodes = m.nodes := by
   unfold Mol.addInter
   split <;> rfl
 
-theorem addOrReplace_nodes (m : Mol) (ty : String) (atoms : List Int) (pr : String) (v : Int) (c : List String) :
+theorem addOrReplace_nodes (m : Mol) (ty : String) (atoms : List Int) (pr : String) (v : Option Int) (c : List String) :
     (m.addOrReplace ty atoms pr v c).1.nodes = m.nodes := by
   unfold Mol.addOrReplace
   simp only
